@@ -336,6 +336,10 @@ class RealEngine(Engine):
                 # x * Inf = Inf
                 s = _signbit(x) != _signbit(y)
                 return Float(s=s, isinf=True, ctx=REAL)
+        elif _is_zero(x) or _is_zero(y):
+            # 0 * y = 0; a `Fraction` product would lose the sign of the zero
+            s = _signbit(x) != _signbit(y)
+            return Float(s=s, c=0, ctx=REAL)
         else:
             # both are finite
             match x, y:
